@@ -40,6 +40,7 @@ pub struct SolverCache<D: DependencyProvider> {
     /// A mapping from a solvable to a list of dependencies
     solvable_dependencies: Arena<DependenciesId, Dependencies>,
     solvable_to_dependencies: FrozenCopyMap<SolvableId, DependenciesId>,
+    solvable_to_dependencies_in_flight: RefCell<HashMap<SolvableId, Rc<Event>>>,
 
     /// A mapping that indicates that the dependencies for a particular solvable
     /// can cheaply be retrieved from the dependency provider. This
@@ -64,6 +65,20 @@ impl Drop for InFlightGuard<'_> {
     }
 }
 
+/// The same for a `get_dependencies` request.
+struct DependenciesInFlightGuard<'a> {
+    in_flight: &'a RefCell<HashMap<SolvableId, Rc<Event>>>,
+    solvable_id: SolvableId,
+}
+
+impl Drop for DependenciesInFlightGuard<'_> {
+    fn drop(&mut self) {
+        if let Some(notifier) = self.in_flight.borrow_mut().remove(&self.solvable_id) {
+            notifier.notify(usize::MAX);
+        }
+    }
+}
+
 impl<D: DependencyProvider> SolverCache<D> {
     /// Constructs a new instance from a provider.
     pub fn new(provider: D) -> Self {
@@ -77,6 +92,7 @@ impl<D: DependencyProvider> SolverCache<D> {
             requirement_to_sorted_candidates: Default::default(),
             solvable_dependencies: Default::default(),
             solvable_to_dependencies: Default::default(),
+            solvable_to_dependencies_in_flight: Default::default(),
             hint_dependencies_available: Default::default(),
         }
     }
@@ -359,22 +375,51 @@ impl<D: DependencyProvider> SolverCache<D> {
         &self,
         solvable_id: SolvableId,
     ) -> Result<&Dependencies, Box<dyn Any>> {
-        let dependencies_id = match self.solvable_to_dependencies.get_copy(&solvable_id) {
-            Some(id) => id,
-            None => {
-                // Since getting the dependencies from the provider is a potentially blocking
-                // operation, we want to check beforehand whether we should cancel the solving
-                // process
-                if let Some(value) = self.provider.should_cancel_with_value() {
-                    return Err(value);
-                }
-
-                let dependencies = self.provider.get_dependencies(solvable_id).await;
-                let dependencies_id = self.solvable_dependencies.alloc(dependencies);
-                self.solvable_to_dependencies
-                    .insert_copy(solvable_id, dependencies_id);
-                dependencies_id
+        let dependencies_id = loop {
+            if let Some(id) = self.solvable_to_dependencies.get_copy(&solvable_id) {
+                break id;
             }
+
+            // Since getting the dependencies from the provider is a potentially blocking
+            // operation, we want to check beforehand whether we should cancel the solving
+            // process
+            if let Some(value) = self.provider.should_cancel_with_value() {
+                return Err(value);
+            }
+
+            // Check if there is an in-flight request, e.g. because the provider looks at
+            // the dependencies of the solvables it sorts while the solver requests them
+            // as well.
+            let in_flight_request = self
+                .solvable_to_dependencies_in_flight
+                .borrow()
+                .get(&solvable_id)
+                .cloned();
+            if let Some(in_flight) = in_flight_request {
+                // Wait for that request and look again: it either stored its result or was
+                // dropped before the provider answered.
+                in_flight.listen().await;
+                continue;
+            }
+
+            self.solvable_to_dependencies_in_flight
+                .borrow_mut()
+                .insert(solvable_id, Rc::new(Event::new()));
+            let in_flight_guard = DependenciesInFlightGuard {
+                in_flight: &self.solvable_to_dependencies_in_flight,
+                solvable_id,
+            };
+
+            let dependencies = self.provider.get_dependencies(solvable_id).await;
+            let dependencies_id = self.solvable_dependencies.alloc(dependencies);
+            self.solvable_to_dependencies
+                .insert_copy(solvable_id, dependencies_id);
+
+            // Remove the in-flight request now that the result is stored and notify any
+            // waiters
+            drop(in_flight_guard);
+
+            break dependencies_id;
         };
 
         Ok(&self.solvable_dependencies[dependencies_id])
